@@ -249,20 +249,37 @@ def decode_all(data, validate):
     nrec = 0
     crcs = []
     nb = 0
-    while mr.has_next():
-        batch = mr.next_batch()
-        if batch is None:
-            break
-        nb += 1
-        if nb > 10_000:
-            raise RuntimeError("decoder does not terminate: more than 10000 batches")
-        if validate:
-            crcs.append(bool(batch.validate_crc()))
-        for rec in batch:
-            nrec += 1
-            _ = (rec.offset, rec.timestamp, rec.key, rec.value, rec.headers, rec.checksum)
-            if nrec > 1_000_000:
-                raise RuntimeError("decoder does not terminate: more than 10^6 records")
+    try:
+        while mr.has_next():
+            batch = mr.next_batch()
+            if batch is None:
+                break
+            nb += 1
+            if nb > 10_000:
+                raise RuntimeError("decoder does not terminate: more than 10000 batches")
+            if validate:
+                crcs.append(bool(batch.validate_crc()))
+            for rec in batch:
+                nrec += 1
+                _ = (rec.offset, rec.timestamp, rec.key, rec.value, rec.headers, rec.checksum)
+                if nrec > 1_000_000:
+                    raise RuntimeError("decoder does not terminate: more than 10^6 records")
+    except (SystemError, MemoryError, RuntimeError):
+        raise
+    except Exception:
+        # a caller may poll the same reader again after an error: that must stay inside the
+        # buffer too (and may only raise ordinary errors)
+        for _ in range(3):
+            try:
+                if mr.has_next():
+                    b2 = mr.next_batch()
+                    if b2 is not None and validate:
+                        b2.validate_crc()
+            except (SystemError, MemoryError):
+                raise
+            except Exception:  # noqa: BLE001
+                pass
+        raise
     return nrec, crcs
 
 
